@@ -29,6 +29,18 @@ from ..tlc import run_tlc, simulate_behaviours, validate_traces
 LEVEL = "other"
 
 
+class CodeRaised(Exception):
+    """compute_overlap raised on input inside its documented domain: a verdict about the code, not a failure of the harness."""
+
+
+def co(*args):
+    from iodata.overlap import compute_overlap
+    try:
+        return compute_overlap(*args)
+    except Exception as exc:  # noqa: BLE001
+        raise CodeRaised(f"{type(exc).__name__}: {str(exc)[:100]}") from exc
+
+
 def dfact(n):
     r = 1
     while n > 1:
@@ -47,7 +59,10 @@ def lattice_events(task):
     ob1 = MolecularBasis([Shell(0, [l1], ["c"], [0.25], [[1.0]])], HORTON2_CONVENTIONS, "L2")
     A = np.zeros((1, 3))
     B = np.array([[2.0 * sep[0], 2.0 * sep[1], 2.0 * sep[2]]])
-    Smat = compute_overlap(ob0, A, ob1, B)
+    try:
+        Smat = co(ob0, A, ob1, B)
+    except CodeRaised as exc:
+        return [{"op": "Kernel3d", "na": [l0, 0, 0], "nb": [l1, 0, 0], "pa": [int(x) for x in sep], "value": 0, "exact": False, "raised": str(exc)}]
     n0 = [tuple(int(v) for v in n) for n in iter_cart_alphabet(l0)]
     n1 = [tuple(int(v) for v in n) for n in iter_cart_alphabet(l1)]
     r2 = float((B[0] ** 2).sum())
@@ -132,9 +147,9 @@ def matrix_dict(b0, c0, b1, c1, shift, swapped):
     s = np.array([0.37, -1.21, 2.5]) * shift
     o0, o1 = concrete(b0, c0), concrete(b1, c1)
     if swapped:
-        S = compute_overlap(o1, xyz + s, o0, xyz + s).T
+        S = co(o1, xyz + s, o0, xyz + s).T
     else:
-        S = compute_overlap(o0, xyz + s, o1, xyz + s)
+        S = co(o0, xyz + s, o1, xyz + s)
     r0, r1 = labelled(b0, c0), labelled(b1, c1)
     return {(f0, f1): S[i, j] * s0 * s1 for i, (f0, s0) in enumerate(r0) for j, (f1, s1) in enumerate(r1)}, S, (o0, o1, xyz + s)
 
@@ -147,10 +162,17 @@ def replay_behaviour(beh):
     from ..refeval import overlap as ref_overlap
     states = [state_vars(text) for _, text in beh]
     first = states[0]
-    d0, _, _ = matrix_dict(decode_basis(first["b0"]), first["cv0"], decode_basis(first["b1"]), first["cv1"], first["shift"], first["swapped"])
+    try:
+        d0, _, _ = matrix_dict(decode_basis(first["b0"]), first["cv0"], decode_basis(first["b1"]), first["cv1"], first["shift"], first["swapped"])
+    except CodeRaised as exc:
+        return [{"op": "Equiv", "actions": [], "same": False, "ref_same": False, "raised": str(exc)}]
     evs = []
     for k, st in enumerate(states[1:], 1):
-        d, S, (o0, o1, xyz) = matrix_dict(decode_basis(st["b0"]), st["cv0"], decode_basis(st["b1"]), st["cv1"], st["shift"], st["swapped"])
+        try:
+            d, S, (o0, o1, xyz) = matrix_dict(decode_basis(st["b0"]), st["cv0"], decode_basis(st["b1"]), st["cv1"], st["shift"], st["swapped"])
+        except CodeRaised as exc:
+            evs.append({"op": "Equiv", "actions": [s_["last"] for s_ in states[1:k + 1]], "same": False, "ref_same": False, "raised": str(exc)})
+            continue
         same = set(d) == set(d0) and all(abs(d[key] - d0[key]) <= 1e-12 * max(1.0, abs(d0[key])) for key in d0)
         ev = {"op": "Equiv", "actions": [s["last"] for s in states[1:k + 1]], "same": bool(same), "ref_same": True}
         if k == len(states) - 1:
@@ -170,8 +192,12 @@ def random_case(seed):
     rng = random.Random(seed)
     ncenter = rng.randint(1, 4)
     xyz = np.array([[rng.uniform(-2, 2) for _ in range(3)] for _ in range(ncenter)])
-    if ncenter > 1 and rng.random() < 0.3:
+    r = rng.random()
+    if ncenter > 1 and r < 0.3:
         xyz[1] = xyz[0]   # coincident centres
+    elif ncenter > 1 and r < 0.5:
+        # nearly coincident along some axes (a planar molecule with numerical noise in one coordinate, a displaced copy)
+        xyz[1] = xyz[0] + np.array([rng.choice([0.0, 1e-9, -3e-9, 1.5e-8, 1e-6, rng.uniform(-2, 2)]) for _ in range(3)])
     lmax = rng.choice([2, 3, 4, 7])
 
     def mk(nsh):
@@ -198,25 +224,67 @@ def random_case(seed):
     # deviations are measured against the norms of the two functions, sqrt(<i|i><j|j>) from the reference evaluator: an element
     # that is small because the functions hardly overlap (or cancel) carries the rounding error of its large contributions
     d0 = np.sqrt(np.abs(np.diag(ref_overlap(o0, xyz))))
-    if two:
-        o1 = mk(1 if lmax == 7 else rng.randint(1, 2))
-        # the second basis has its own geometry: the same centre index does not mean the same position
-        xyz1 = xyz if rng.random() < 0.4 else xyz + np.array([[rng.uniform(-1.5, 1.5) for _ in range(3)] for _ in range(ncenter)])
-        ev["othergeom"] = xyz1 is not xyz
-        d1 = np.sqrt(np.abs(np.diag(ref_overlap(o1, xyz1))))
-        scale = np.outer(d0, d1) + 1e-300
-        S = compute_overlap(o0, xyz, o1, xyz1)
-        R = ref_overlap(o0, xyz, o1, xyz1)
-        ev["transpose"] = bool(np.all(np.abs(compute_overlap(o1, xyz1, o0, xyz) - S.T) <= 1e-13 * scale.T))
-    else:
-        scale = np.outer(d0, d0) + 1e-300
-        S = compute_overlap(o0, xyz)
-        R = ref_overlap(o0, xyz)
-        ev["sym"] = bool(np.all(np.abs(S - S.T) <= 1e-13 * scale))
-        ev["psd"] = bool(np.linalg.eigvalsh((S + S.T) / 2 / scale).min() >= -1e-10)
+    try:
+        if two:
+            o1 = mk(1 if lmax == 7 else rng.randint(1, 2))
+            # the second basis has its own geometry: the same centre index does not mean the same position
+            xyz1 = xyz if rng.random() < 0.4 else xyz + np.array([[rng.uniform(-1.5, 1.5) for _ in range(3)] for _ in range(ncenter)])
+            ev["othergeom"] = xyz1 is not xyz
+            d1 = np.sqrt(np.abs(np.diag(ref_overlap(o1, xyz1))))
+            scale = np.outer(d0, d1) + 1e-300
+            S = co(o0, xyz, o1, xyz1)
+            R = ref_overlap(o0, xyz, o1, xyz1)
+            St = co(o1, xyz1, o0, xyz)
+            ev["transpose"] = bool(St.shape == S.T.shape == scale.T.shape and np.all(np.abs(St - S.T) <= 1e-13 * scale.T))
+        else:
+            scale = np.outer(d0, d0) + 1e-300
+            S = co(o0, xyz)
+            R = ref_overlap(o0, xyz)
+            if S.shape == scale.shape:
+                ev["sym"] = bool(np.all(np.abs(S - S.T) <= 1e-13 * scale))
+                ev["psd"] = bool(np.linalg.eigvalsh((S + S.T) / 2 / scale).min() >= -1e-10)
+    except CodeRaised as exc:
+        ev.update(maxrel=-1.0, same=False, raised=str(exc))
+        return ev
+    if S.shape != R.shape:
+        ev.update(maxrel=-1.0, same=False, raised=f"shape {S.shape} instead of {R.shape}")
+        return ev
     ev["maxrel"] = float((np.abs(S - R) / scale).max())
     ev["same"] = bool(ev["maxrel"] <= 1e-10)
     return ev
+
+
+def near_coincident_events():
+    """Two centres a hair apart along one or two axes (noise in a coordinate of a planar molecule, a displaced copy of a basis):
+    the terms linear in the displacement are part of the integral."""
+    from iodata.basis import MolecularBasis, Shell
+    from iodata.convert import HORTON2_CONVENTIONS as H
+    from ..refeval import overlap as ref_overlap
+    evs = []
+    k = 0
+    for l0 in range(4):
+        for l1 in range(4):
+            for delta in (1e-9, 5e-9, 1.5e-8, 8e-8):
+                for a in (0.5, 30.0, 300.0):
+                    k += 1
+                    d = np.zeros(3)
+                    d[k % 3] = delta
+                    if k % 2:
+                        d[(k + 1) % 3] = -0.6 * delta
+                    xyz = np.array([[0.1, -0.2, 0.3], [0.1, -0.2, 0.3] + d])
+                    ob = MolecularBasis([Shell(0, [l0], ["c"], [a], [[1.0]]), Shell(1, [l1], ["c"], [1.7 * a], [[1.0]])], H, "L2")
+                    ev = {"op": "Reference", "seed": -k, "lmax": max(l0, l1), "two": False, "othergeom": False, "sym": True, "psd": True,
+                          "transpose": True, "near": delta}
+                    try:
+                        S = co(ob, xyz)
+                        R = ref_overlap(ob, xyz)
+                        dg = np.sqrt(np.abs(np.diag(R)))
+                        ev["maxrel"] = float((np.abs(S - R) / np.outer(dg, dg)).max())
+                        ev["same"] = bool(ev["maxrel"] <= 1e-12)
+                    except CodeRaised as exc:
+                        ev.update(maxrel=-1.0, same=False, raised=str(exc))
+                    evs.append(ev)
+    return evs
 
 
 def screening_events():
@@ -232,7 +300,7 @@ def screening_events():
             d = np.sqrt(-np.log(target) * 2.0 / a)
             ob = MolecularBasis([Shell(0, [0], ["c"], [a], [[1.0]]), Shell(1, [1], ["c"], [a], [[1.0]])], H, "L2")
             xyz = np.array([[0.0, 0.0, 0.0], [0.0, 0.0, d]])
-            S = compute_overlap(ob, xyz)
+            S = co(ob, xyz)
             R = ref_overlap(ob, xyz)
             # contributions whose Gaussian prefactor is below 1e-15 may be neglected (entry 0) or kept (entry = reference);
             # above the threshold the entry must be the reference value
@@ -288,6 +356,7 @@ def check(run: Run):
     for sub in pmap(replay_behaviour, behs, chunksize=1):
         events += sub
     events += pmap(random_case, [run.seed * 1009 + i for i in range(run.pick(60, 600))], chunksize=1)
+    events += near_coincident_events()
     events += screening_events()
     events += rejection_events()
     reached = validate_traces(run, "Trace_Kernels", [[e] for e in events], chunk=4000)
